@@ -38,7 +38,7 @@ ASSUMPTIONS = [
 REAL_VS_STUB = {"real": ["molli.chem.ensemble.ConformerEnsemble / Conformer", "_serialize_ens_v2/_deserialize_ens_v2 + msgpack", "dumps_mol2/dumps_xyz"],
                 "stub": ["caller tasks (generators stepped by the seeded scheduler)"]}
 PROBES = ["iter_plain", "iter_nested", "iter_zip", "iter_restart", "two_or_more_tasks_interleaved", "mutator_between_nexts", "append", "extend_list",
-          "extend_ens", "extend_oneshot_iterable", "held_view_checked_after_mutation", "copy_construct", "rebuild_from_conformers", "slice", "write_through_conformer", "serialise_roundtrip", "conformer_dump",
+          "extend_ens", "extend_oneshot_iterable", "held_view_checked_after_mutation", "refused_append_or_extend", "copy_construct", "rebuild_from_conformers", "slice", "write_through_conformer", "serialise_roundtrip", "conformer_dump",
           "empty_ensemble_iterated"]
 
 TEMPLATES = {
@@ -65,7 +65,7 @@ def gen_plan(r, tier, index):
     phases = []
     for _ in range(r.choice([2, 3, 3, 4, 5, 7])):
         if r.random() < 0.45:
-            phases.append({"type": "op", "op": r.choice(["append", "append", "extend_list", "extend_ens", "extend_gen", "extend_iter", "extend_tuple", "copy", "rebuild", "slice"]),
+            phases.append({"type": "op", "op": r.choice(["append", "append", "extend_list", "extend_ens", "extend_gen", "extend_iter", "extend_tuple", "copy", "rebuild", "slice", "append_bad", "extend_bad"]),
                            "n": r.choice([1, 1, 2, 3]), "cseed": r.randrange(1 << 30)})
         else:
             nt = r.choice([1, 1, 2, 2, 3])
@@ -119,7 +119,7 @@ def run_plan(plan, trace=False):
         res.violate(clause, f"C14|{clause}|after={ctx[-1].split(':')[0] if ctx[-1].startswith('iterate') else ctx[-1]}{extra}", f"{detail} (history: {ctx[-6:]})")
         raise _V()
 
-    st = {"ens": None, "mc": None, "mq": None, "mw": None}
+    st = {"ens": None, "mc": None, "mq": None, "mw": None, "sources": []}
 
     def check_inv(where):
         ens, mc = st["ens"], st["mc"]
@@ -134,6 +134,10 @@ def run_plan(plan, trace=False):
         if not np.allclose(ens.coords, mc, rtol=1e-9, atol=1e-9, equal_nan=True):
             bad = [i for i in range(nc) if not np.allclose(ens.coords[i], mc[i], rtol=1e-9, atol=1e-9, equal_nan=True)]
             viol("coordinates-differ-from-model", f"{where}: rows {bad} of coords differ from what the history put there")
+        # nothing else changes: the objects the conformers were taken from keep their own coordinates ...
+        for (obj, snap, what) in st["sources"][-6:]:
+            if not np.allclose(np.asarray(obj.coords), snap, rtol=1e-9, atol=1e-9, equal_nan=True):
+                viol("source-object-changed", f"{where}: {what} changed although only the ensemble was operated on")
 
     def check_usable(where):
         """every conformer can be written and the ensemble serialises (to the same shapes)"""
@@ -204,10 +208,30 @@ def run_plan(plan, trace=False):
                 op = ph["op"]
                 ctx.append(op)
                 newc = _coords(ph["cseed"], ph["n"], na)
-                if op == "append":
+                if op in ("append_bad", "extend_bad"):
+                    # a geometry with another number of atoms must be refused and leave the ensemble as it was
+                    res.stats["probe:refused_append_or_extend"] += 1
+                    other_t = "ethane" if base["tmpl"] != "ethane" else "water"
+                    wrong = _mk_mol(other_t, _coords(ph["cseed"], 1, len(TEMPLATES[other_t][0]))[0], "wrong")
+                    try:
+                        if op == "append_bad":
+                            ens.append(wrong)
+                        else:
+                            ens.extend([wrong])
+                        accepted = True
+                    except Exception:  # noqa: BLE001 - any refusal will do
+                        accepted = False
+                    if accepted and mc.shape[0] > 0:
+                        viol("mismatched-geometry-accepted", f"{op}: a {len(TEMPLATES[other_t][0])}-atom geometry was accepted by an ensemble of {na}-atom conformers")
+                    if accepted:
+                        # (an ensemble without conformers may adopt the shape; nothing to compare then)
+                        raise _V()
+                elif op == "append":
                     res.stats["probe:append"] += 1
                     for k in range(ph["n"]):
-                        ens.append(_mk_mol(base["tmpl"], newc[k], "app"))
+                        src_m = _mk_mol(base["tmpl"], newc[k], "app")
+                        ens.append(src_m)
+                        st["sources"].append((src_m, np.array(newc[k], copy=True), "the molecule passed to append()"))
                         mc = np.concatenate([mc, newc[k:k + 1]], axis=0)
                         st["mc"] = mc
                         check_inv(f"after append #{k + 1}")
@@ -234,6 +258,7 @@ def run_plan(plan, trace=False):
                     e2.coords = newc
                     ens.extend(e2)
                     mc = np.concatenate([mc, newc], axis=0)
+                    st["sources"].append((e2, np.array(newc, copy=True), "the ensemble passed to extend()"))
                 elif op == "copy":
                     res.stats["probe:copy_construct"] += 1
                     ens = ml.ConformerEnsemble(ens)
@@ -257,6 +282,13 @@ def run_plan(plan, trace=False):
                 st["ens"], st["mc"] = ens, mc
                 check_inv(f"after {op}")
                 check_usable(f"after {op}")
+                if st["sources"] and op in ("append", "extend_ens"):
+                    # ... and the other way round: moving the object a conformer was taken FROM leaves the ensemble alone
+                    obj, snap, what = st["sources"][-1]
+                    obj.coords[:] = np.asarray(obj.coords) + 0.5
+                    st["sources"][-1] = (obj, snap + 0.5, what)
+                    ctx.append("modify-source")
+                    check_inv(f"after moving {what}")
             else:
                 _iter_phase(ph, st, res, viol, check_inv, ctx, na, log, _serialize_ens_v2, _deserialize_ens_v2, msgpack)
     except _V:
